@@ -520,7 +520,6 @@ def check_values(ctx, hz):
                      (case['kind'], n, m, bool(cut), case['cache'], has0, hasrim) if npts > 0 else None)
             slots.append((len(lines), case, n, m, cut, z, amb, refs[len(slots) - base_slot][1]))
             lines.append('C13 mode %d %d %s %d' % (n, m, rat(case['D']), 1 if cut else 0))
-    ctx.count('boundary_fraction_permille', 0)
     total_pts = ctx.dist.get('points', 0)
     if total_pts and ctx.boundary_skipped > 0.05 * total_pts:
         raise MachineryError('generator produced %d ambiguous rim points of %d' % (ctx.boundary_skipped, total_pts))
